@@ -7,5 +7,8 @@ PROPS = {
         "assumptions": ["result type R instantiated to int (reflect.DeepEqual = integer equality)",
                         "registration lists are non-nil; targets of HandleErrors are non-nil"],
         "keyfn": lambda c: None,
+        "design_ref": "DESIGN.md 4.12",
+        "level_text": "Proof: is_failure/is_abortable/hedge-cancel of the Gallina mirror of policy.go + util.go equal the documented truth table for every list of registrations (any subset, order, repetition) and every outcome; errors.Is / ErrorTypesMatch mirrors are proved equal to an inductive unwrap-tree relation. Tie: every run enumerates the full grid (16 subsets x 3 orders x 48 outcomes) through a Fallback, a RetryPolicy, a breaker, retry-abort and hedge-cancel on the real code plus random registrations / error trees, and coqc compares each observation with the model and with the documented rule.",
+        "level_note": "Trusted: Coq kernel + vm_compute; hand-written model (tie = correspondence of this run); Go harness and error-shape mapping; errors.Is/reflect semantics mirrored for the generated shapes only; R=int. No axioms (Print Assumptions: closed).",
     },
 }
